@@ -94,7 +94,8 @@ func (r *rule) match(path string) (bool, error) {
 }
 
 func (r *rule) compile() error {
-	regStr := "^"
+	// (?s): a file name may contain a newline, and "**" spans it like any other character
+	regStr := "(?s)^"
 	pattern := r.val
 	// Go through the pattern and convert it to a regexp.
 	// Use a scanner to support utf-8 chars.
